@@ -82,7 +82,7 @@ static lzma_ret step(Run &R, lzma_action a, bool sample_progress) {
 
 static bool decode_prefix_equals(const std::vector<uint8_t> &comp, const uint8_t *plain, size_t n) {
 	// single-threaded decoder, LZMA_RUN only: must deliver exactly n bytes == plain and then want more input
-	lzma_stream d = LZMA_STREAM_INIT; d.allocator = AL();
+	lzma_stream d = LZMA_STREAM_INIT; d.allocator = NULL;   // the harness' own decoder: plain malloc (the case's allocator may carry a failure plan)
 	if (lzma_stream_decoder(&d, UINT64_MAX, 0) != LZMA_OK) harness_bug("decoder init");
 	std::vector<uint8_t> o(n + 64); static uint8_t z[1];
 	d.next_in = comp.empty() ? z : comp.data(); d.avail_in = comp.size(); d.next_out = o.data(); d.avail_out = o.size();
@@ -157,13 +157,17 @@ extern "C" int LLVMFuzzerTestOneInput(const uint8_t *data, size_t size) {
 	  d += "],\"life\":" + std::to_string(life) + ",\"end_after\":" + std::to_string(end_after) + ",\"strategy\":" + std::to_string(strategy) + ",\"sched_bytes\":" + std::to_string(sb.size()) + "}"; set_desc(d); }
 
 	ALR().reset_counters(); uint64_t live0 = ALR().live_bytes;
+	// one allocation fails (an eighth of the cases; which one comes from the last two case bytes): whether it is the main thread's or a
+	// worker's, lzma_code must come back with LZMA_MEM_ERROR - a waiting main thread has to be woken by the worker's error
+	ALR().plan_none(); bool alloc_fault = false;
+	if (size >= 2 && (data[size - 1] & 7) == 5) { ALR().fail_at = 1 + (data[size - 1] >> 3) + 32 * (uint64_t)(data[size - 2] & 3); alloc_fault = true; count("one_allocation_fails"); }
 #ifdef VARIANT_SCHED
 	vsched_set_reporter(sched_reporter);
 	vsched_begin(sb.data(), sb.size(), sseed, strategy);
 #endif
 	Run R; R.c = &c; R.s.allocator = AL(); R.end_after = end_after; R.timeout = mt.timeout;
 	auto finish_case = [&]() {
-		lzma_end(&R.s);
+		lzma_end(&R.s); if (alloc_fault && ALR().failed) count("allocation_failure_delivered"); ALR().plan_none();
 #ifdef VARIANT_SCHED
 		vsched_end();
 #endif
